@@ -115,7 +115,7 @@ def run(ctx):
            'the high CRC byte is captured from crc[8:16] while the low byte is being sent: %s' % [q.fmt(a) for a in rc])
     # (e) ready
     for a in q.raises(ir, 'self.stream.ready'):
-        ok = q.state_of(a) == PAY and a.rhs.canon() == TR and not a.guard
+        ok = q.state_of(a) == PAY and q.is_one(a.rhs) and q.atoms(a) == {(TR, True)}
         ctx.ob('C03.ready-only-in-payload', 'USBDataPacketGenerator.stream.ready@%s' % role.get(q.state_of(a), '?'), ok, a.loc,
                'stream.ready may only mirror tx.ready in the payload state: %s' % q.fmt(a))
     ctx.ob('C03.ready-only-in-payload', 'USBDataPacketGenerator.stream.ready.exists', any(q.state_of(a) == PAY for a in q.raises(ir, 'self.stream.ready')), None, 'payload bytes are accepted')
